@@ -1,7 +1,7 @@
 (* C03 -- Verilog write -> read round trip.  Statements only; proofs in Proofs/VerilogProofs.v. *)
 From CG Require Import Verilog.ExprParse.
 From stdpp Require Import strings gmap sets.
-From CG Require Import Types Sem Cases Model.Lint Api Verilog.Ast Verilog.Read Verilog.Write Proofs.VerilogProofs Proofs.VerilogReadProofs Proofs.VerilogRtProofs Proofs.VerilogEqProofs Proofs.VerilogRtBbProofs.
+From CG Require Import Types Sem Cases Model.Lint Api Verilog.Ast Verilog.Read Verilog.Write Proofs.VerilogProofs Proofs.VerilogReadProofs Proofs.VerilogRtProofs Proofs.VerilogEqProofs Proofs.VerilogRtBbProofs Proofs.VerilogEqBbProofs.
 Open Scope string_scope.
 
 (* well-formed circuits of the property: lint-clean (blackbox pins may be open), names usable as identifier tokens,
@@ -30,13 +30,16 @@ Definition wf_bb (C : Circuit) : Prop :=
   (∀ i j d e p q, c_bbs C !! i = Some d → c_bbs C !! j = Some e → p ∈ bb_in d ∪ bb_out d → q ∈ bb_in e ∪ bb_out e → pin i p = pin j q → i = j) ∧
   (∀ inst d, c_bbs C !! inst = Some d → starts_digit inst = false ∧ prim_of_name (bb_name d) = None).
 
+(* blackbox input pins that are attached to a net *)
+Definition connected_in_pins (g : circuit) : gset string := dom (filter (λ p : string * ninfo, n_ty p.2 = BbIn ∧ n_fi p.2 ≠ ∅) g).
+(* no pin node carries an output mark (the writer would declare the pin name as a port) *)
+Definition no_pin_outputs (g : circuit) : Prop := ∀ n i, g !! n = Some i → n_ty i = BbIn ∨ n_ty i = BbOut → n_out i = false.
+
 (* full statements (validated per generated circuit by Run_C03.holds).  Proved below: roundtrip_identical for all circuits that also
    satisfy wf_bb (C03_roundtrip_identical_bb: blackbox instances with connected and unconnected pins, escaped instance names), both
    statements for circuits without blackboxes.  Not theorems as they stand: wf_rt alone admits the circuits excluded by wf_bb (e.g. a
    gate called ff0.x, a blackbox type called "and"), whose text the reader rejects or reads differently.
-   Open: roundtrip_equiv for circuits with blackbox instances (pins: C02_read_bb_pins gives them for the read-back circuit; missing is
-   sat_module of the written module = consistent valuations of the original with the blackbox-driven buffers as unconstrained nets,
-   and the in_subset guards of the written blackbox statements), and several x constants. *)
+   roundtrip_equiv with blackboxes, both styles, all constants: C03_roundtrip_equiv_bb (outputs and connected input pins). *)
 Definition roundtrip_equiv_full : Prop := ∀ C b π m rsv,
   wf_rt C → write C b π = Ok m → list_to_set (module_ids m) ⊆ rsv →
   ∃ C', read rsv (bbdefs_of C) m = Ok C' ∧
@@ -44,9 +47,11 @@ Definition roundtrip_equiv_full : Prop := ∀ C b π m rsv,
     (∀ p, p ∈ of_type (c_g C) (is_ty BbIn) → fanin (c_g C') p = fanin (c_g C) p) ∧
     (∀ p, p ∈ of_type (c_g C) (is_ty BbOut) → fanout (c_g C') p = fanout (c_g C) p) ∧
     equiv_on (outputs (c_g C) ∪ of_type (c_g C) (is_ty BbIn)) (c_g C) (c_g C').
-(* the same restricted to where it can hold (wf_bb; all x constants of the original carry one value, as the reader shares one unknown):
-   open for circuits with blackbox instances in the assign style or with constants; proved below for circuits without blackboxes
-   (C03_roundtrip_equiv_bbfree_x) and, in the primitive style without constants, with blackboxes (C03_roundtrip_equiv_bb_prim) *)
+(* the same restricted to where it can hold (wf_bb; all x constants of the original carry one value, as the reader shares one unknown).
+   Proved below: C03_roundtrip_equiv_bb = this statement with the equivalence at the outputs and the CONNECTED blackbox input pins, under the
+   extra hypothesis no_pin_outputs.  Missing for the literal statement: the equivalence at UNCONNECTED input pins (free nodes of both
+   circuits: to transfer an arbitrary value of such a node one needs that no node of the read-back circuit reads it - true, connect()
+   refuses bb_input sources, but not part of any invariant proved for the reader), and pin nodes marked as outputs *)
 Definition roundtrip_equiv_bb_full : Prop := ∀ C b π m rsv,
   wf_rt C → wf_bb C → write C b π = Ok m → list_to_set (module_ids m) ⊆ rsv →
   ∃ C', read rsv (bbdefs_of C) m = Ok C' ∧
@@ -186,6 +191,32 @@ Proof.
 Qed.
 Print Assumptions C03_roundtrip_identical_bb.
 
+(* roundtrip_equiv for circuits WITH blackbox instances: both styles, any constants (several x constants included: one shared unknown, as in
+   C03_roundtrip_equiv_bbfree_x), connected and unconnected pins, escaped instance names.  For every order choice and every reserved set that
+   contains the identifiers of the text the read succeeds and gives a circuit with the same name, inputs, outputs and registry; every
+   blackbox input pin of the original is a bb_input node of the read-back circuit attached to the same net (or to none), every output pin
+   drives the same net (or none); and the two circuits are equivalent at every output and every connected blackbox input pin.  (An
+   unconnected input pin is an unattached free node in both circuits: there is no function to compare; see roundtrip_equiv_bb_full.)
+   Proof (Proofs/VerilogEqBbProofs.v): the written module satisfies every Prop-level guard of C02's lemmas (read_succeeds_bb_items,
+   read_bb_pins_items, C02_read_denotes both directions, C02_read_io at lemma level - the gate statements through the blackbox-free shape
+   lemmas on the module without its blackbox statements, the blackbox statements directly); the models of the module are the consistent
+   valuations of the original restricted to its nets (each emitted statement denotes its node's function; the detached buffer of an
+   output pin is an unconstrained net on one side and a buffer of a free pin on the other); pins by bb_ok. *)
+Theorem C03_roundtrip_equiv_bb : ∀ C b π m rsv,
+  wf_rt C → wf_bb C → no_pin_outputs (c_g C) → write C b π = Ok m → list_to_set (module_ids m) ⊆ rsv →
+  ∃ C', read rsv (bbdefs_of C) m = Ok C' ∧
+    c_name C' = c_name C ∧ inputs (c_g C') = inputs (c_g C) ∧ outputs (c_g C') = outputs (c_g C) ∧ c_bbs C' = c_bbs C ∧
+    (∀ p, p ∈ of_type (c_g C) (is_ty BbIn) → ty (c_g C') p = Some BbIn ∧ fanin (c_g C') p = fanin (c_g C) p) ∧
+    (∀ p, p ∈ of_type (c_g C) (is_ty BbOut) → fanout (c_g C') p = fanout (c_g C) p) ∧
+    let S := outputs (c_g C) ∪ connected_in_pins (c_g C) in
+    (∀ v', consistent (c_g C') v' → ∃ v, consistent (c_g C) v ∧ (∃ x : bool, ∀ n, n ∈ of_type (c_g C) (is_ty CX) → v n = x) ∧ agrees S v v') ∧
+    (∀ v, consistent (c_g C) v → (∃ x : bool, ∀ n, n ∈ of_type (c_g C) (is_ty CX) → v n = x) → ∃ w, consistent (c_g C') w ∧ agrees S w v).
+Proof.
+  intros C b π m rsv (Hl & Hg & Hn & Hd & Hcl) (B1 & B2 & B3 & B4 & B5) Hno Hw Hids.
+  exact (roundtrip_equiv_bb C b π m rsv (lint_clean_rteb C rt_flags Hl Hg Hn Hd Hcl B1 B2 B3 B4 B5 Hno) Hw Hids).
+Qed.
+Print Assumptions C03_roundtrip_equiv_bb.
+
 (* roundtrip_equiv (its conclusion word for word) for circuits with blackbox instances in the primitive style without constants:
    corollary of C03_roundtrip_identical_bb - the read-back circuit is the original *)
 Theorem C03_roundtrip_equiv_bb_prim : ∀ C π m rsv,
@@ -297,3 +328,38 @@ Example C03_ex_equiv_x_hyps :
   | Ok m, Ok m' => match read (list_to_set (module_ids m)) [] m, read (list_to_set (module_ids m')) [] m' with Ok _, Ok _ => true | _, _ => false end
   | _, _ => false end = true.
 Proof. vm_compute. done. Qed.
+
+(* non-vacuity of C03_roundtrip_equiv_bb: the hypotheses hold for the flop circuit above extended by a 1 on an enable pin, an x constant in
+   the logic and an output x constant; both styles are written and read back with the same registry *)
+Definition ex_C6 : Circuit := Cases.mk "top6"
+  [("a", Input, false, []); ("clk", Input, true, []); ("k1", C1, false, []); ("u", CX, false, []); ("w", CX, true, []); ("g", Nand, true, ["a"; "q"; "u"]);
+   ("ff0.d", BbIn, false, ["g"]); ("ff0.clk", BbIn, false, ["clk"]); ("ff0.en", BbIn, false, ["k1"]);
+   ("ff0.q", BbOut, false, []); ("ff0.qn", BbOut, false, []); ("q", Buf, false, ["ff0.q"]);
+   ("\u[1].d", BbIn, false, ["q"]); ("\u[1].clk", BbIn, false, ["clk"]); ("\u[1].en", BbIn, false, []);
+   ("\u[1].q", BbOut, false, []); ("\u[1].qn", BbOut, false, []); ("q2", Buf, true, ["\u[1].qn"]); ("n1", Xnor, true, ["q2"; "w"])]
+  [("ff0", Cases.mk_bb "dff" ["d"; "clk"; "en"] ["q"; "qn"]); ("\u[1]", Cases.mk_bb "dff" ["d"; "clk"; "en"] ["q"; "qn"])].
+Definition ex_ord6 : worder :=
+  {| o_ins := ["clk"; "a"]; o_outs := ["n1"; "clk"; "q2"; "g"; "w"];
+     o_bbs := [("\u[1]", ["en"; "d"; "clk"], ["qn"; "q"]); ("ff0", ["clk"; "en"; "d"], ["q"; "qn"])];
+     o_nodes := ["n1"; "q"; "u"; "g"; "k1"; "q2"; "w"];
+     o_fi := [("n1", ["w"; "q2"]); ("q", []); ("u", []); ("g", ["q"; "u"; "a"]); ("k1", []); ("q2", []); ("w", [])] |}.
+Example C03_ex_equiv_bb_hyps : wf_rt ex_C6 ∧ wf_bb ex_C6 ∧ no_pin_outputs (c_g ex_C6) ∧
+  match write ex_C6 true ex_ord6, write ex_C6 false ex_ord6 with
+  | Ok m, Ok m' => match read (list_to_set (module_ids m)) (bbdefs_of ex_C6) m, read (list_to_set (module_ids m')) (bbdefs_of ex_C6) m' with
+                   | Ok C1', Ok C2' => bool_decide (c_bbs C1' = c_bbs ex_C6) && bool_decide (c_bbs C2' = c_bbs ex_C6) &&
+                                       bool_decide (fanin (c_g C1') "ff0.en" = {["k1"]}) && bool_decide (size (connected_in_pins (c_g ex_C6)) = 5)
+                   | _, _ => false end
+  | _, _ => false end = true.
+Proof.
+  split; [|split; [|split]].
+  - split; [vm_compute; reflexivity|]. split; [|split; [|split]].
+    + change (map_Forall (λ n i, n_ty i ∈ gate_types → n_fi i ≠ ∅) (c_g ex_C6)). apply (bool_decide_unpack _). vm_compute. exact I.
+    + change (set_Forall (λ n, n ≠ "" ∧ starts_digit n = false) (dom (c_g ex_C6))). apply (bool_decide_unpack _). vm_compute. exact I.
+    + intros i j d e Hd He. revert j e He. revert i d Hd.
+      change (map_Forall (λ (i : string) d, map_Forall (λ (j : string) e, bb_name d = bb_name e → d = e) (c_bbs ex_C6)) (c_bbs ex_C6)).
+      apply (bool_decide_unpack _). vm_compute. exact I.
+    + apply closedb_spec. vm_compute. reflexivity.
+  - apply (wf_bb_dec_sound (c_g ex_C6) (c_bbs ex_C6)). apply (bool_decide_unpack _). vm_compute. exact I.
+  - change (map_Forall (λ (n : string) i, n_ty i = BbIn ∨ n_ty i = BbOut → n_out i = false) (c_g ex_C6)). apply (bool_decide_unpack _). vm_compute. exact I.
+  - vm_compute. reflexivity.
+Qed.
